@@ -1140,6 +1140,16 @@ const (
 	lineBreakVisible
 )
 
+// isEscapedAt returns true if line[pos] is preceded by an odd number of
+// backslashes(i.e. line[pos] itself is backslash-escaped), otherwise false.
+func isEscapedAt(line []byte, pos int) bool {
+	n := 0
+	for i := pos - 1; i >= 0 && line[i] == '\\'; i-- {
+		n++
+	}
+	return n%2 == 1
+}
+
 func (p *parser) parseBlock(block text.BlockReader, parent ast.Node, pc Context) {
 	if parent.IsRaw() {
 		return
@@ -1156,12 +1166,12 @@ func (p *parser) parseBlock(block text.BlockReader, parent ast.Node, pc Context)
 		lineLength := len(line)
 		var lineBreakFlags uint8
 		hasNewLine := line[lineLength-1] == '\n'
-		if ((lineLength >= 3 && line[lineLength-2] == '\\' &&
-			line[lineLength-3] != '\\') || (lineLength == 2 && line[lineLength-2] == '\\')) && hasNewLine { // ends with \\n
+		if lineLength >= 2 && line[lineLength-2] == '\\' &&
+			!isEscapedAt(line, lineLength-2) && hasNewLine { // ends with \\n
 			lineLength -= 2
 			lineBreakFlags |= lineBreakHard | lineBreakVisible
-		} else if ((lineLength >= 4 && line[lineLength-3] == '\\' && line[lineLength-2] == '\r' &&
-			line[lineLength-4] != '\\') || (lineLength == 3 && line[lineLength-3] == '\\' && line[lineLength-2] == '\r')) &&
+		} else if lineLength >= 3 && line[lineLength-3] == '\\' && line[lineLength-2] == '\r' &&
+			!isEscapedAt(line, lineLength-3) &&
 			hasNewLine { // ends with \\r\n
 			lineLength -= 3
 			lineBreakFlags |= lineBreakHard | lineBreakVisible
